@@ -135,6 +135,10 @@ def mk_item(iid, slug=None, obj_id=None, mos_id=None, obj_type=None, note=None,
             elif kind == 'other':
                 md.append(E('mosPayload', E('studioCommand', T('text', text),
                                             attrib={'type': 'cue'})))
+            elif kind == 'untyped-first':
+                # a studioCommand without a type attribute ahead of the note
+                md.append(E('mosPayload', E('studioCommand', T('text', 'no type')),
+                            E('studioCommand', T('text', text), attrib={'type': 'note'})))
             else:
                 md.append(E('mosPayload'))
         it.append(md)
